@@ -274,3 +274,21 @@ PROPS["C12"]["functions"] += [RD + "numba_multinomial_em_sparse"]
 PROPS["C10"]["functions"] += [CU + "em_update_matrix", CU + "sum_coo_entries", NG + "ngrams_of", RD + "numba_multinomial_em_sparse", LOT + "get_transport_plan"] + _DIST + _KL
 for _p in ("C06", "C07", "C11", "C17", "C18"):
     PROPS[_p]["explanation"] = PROPS[_p]["level_text"]
+
+import contracts.preprocessing_k as _PK
+VK = "vectorizers/_vectorizers.py::"
+PROPS["C05"]["functions"] = sorted(_PK.CONTRACTS)
+PROPS["C05"]["level_text"] = ("Deductive (unbounded), on mechanically extracted segments of the real prune_token_dictionary: (i) each occurrence bound is converted to exactly "
+    "bound/total (capped at 1 for the upper bounds) for every None/given combination, (ii) the four comparisons are strict: a token is pruned iff its frequency is < the lower or > "
+    "the upper bound, so over the reals a token occurring exactly the bound is kept, (iii) top-k: every kept frequency is strictly greater than every dropped one and at least one "
+    "token is dropped. Not under contract: set / regex / dictionary re-indexing code, document frequencies, float32 rounding at the boundary. " + PROPS["C05"]["level_text"].replace("Bounded only in this round:", "Bounded:"))
+PROPS["C20"]["functions"] = [VK + "expand_boundaries", VK + "add_outier_bins", VK + "find_bin_boundaries"]
+PROPS["C20"]["level_text"] = ("Deductive (unbounded; pandas intervals modelled as (left, right) records): expand_boundaries and add_outier_bins keep the bins contiguous, leave the "
+    "interior break points unchanged and make the outer edges reach the absolute range (at most one extra bin per side); find_bin_boundaries returns strictly increasing break "
+    "points starting at the data minimum, every index in range. " + PROPS["C20"]["level_text"].replace("Bounded only in this round:", "Bounded:"))
+PROPS["C15"]["functions"] = ["vectorizers/tree_token_cooccurrence.py::build_tree_skip_grams#walks"]
+PROPS["C15"]["level_text"] = ("Deductive (unbounded, over an uninterpreted matrix ring): build_tree_skip_grams computes sum_{k=1..radius} weights[k-1] * A^k - weight k-1 is paired "
+    "with the k-th power of the adjacency matrix and the loop runs exactly radius times (entry (u,v) of A^k is the number of k-step walks). " + PROPS["C15"]["level_text"].replace("Bounded only:", "Bounded:"))
+for _p in ("C05", "C15", "C20"):
+    PROPS[_p]["explanation"] = PROPS[_p]["level_text"]
+    PROPS[_p]["level_note"] = PROPS[_p]["level_note"].replace("No function of this property is under a machine-checked contract yet", "Only the named helper functions / segments are under contract").replace("no function of this property is under contract", "only build_tree_skip_grams' loop is under contract")
